@@ -304,7 +304,7 @@ def items_display(items):
     return ''.join(cells)
 
 
-def gen_stream(rng, modes=None, rich=False, lengths=None, tagged=True, italics=False):
+def gen_stream(rng, modes=None, rich=False, lengths=None, tagged=True, italics=False, trailing=False):
     """A stream of roll-up / paint-on (and optionally a final pop-on) segments.
     -> {'doubled', 'drop', 'start_frame', 'segments': [{'mode': 'roll'|'paint'|'pop', ...}]}"""
     doubled = rng.random() < 0.5
@@ -328,6 +328,11 @@ def gen_stream(rng, modes=None, rich=False, lengths=None, tagged=True, italics=F
             t = ' ' * k + t[:n - k]
             if t.endswith(' '):
                 t = t[:-1] + 'x'
+        elif lengths and trailing and n >= 6 and rng.random() < 0.15:
+            # one to three trailing blanks (the row keeps its number of cells)
+            k = rng.choice([1, 2, 3])
+            t = t[:n - k].rstrip(' ') + ' ' * k
+            t = t + ' ' * (n - len(t))
         return t
 
     for mi, m in enumerate(modes):
